@@ -198,7 +198,7 @@ Section Sem.
     time_evolve psi H t f m = Some r -> shape r = shape psi /\ wf r.
   Proof.
     unfold Dispatch.time_evolve. destruct (is_scipy m) as [[|]|]; [| |discriminate].
-    - destruct (k_solve_ivp _ _ _ _ _) as [|c0 ?]; [discriminate|].
+    - destruct (rev (k_solve_ivp _ _ _ _ _)) as [|c0 ?]; [discriminate|].
       intros Hr. apply reshape_some in Hr. tauto.
     - destruct (Dispatch.fast_exp_action _ _ _ _ _ _ _ _ _ _ _) as [v|]; [|discriminate].
       intros Hr. apply reshape_some in Hr. tauto.
@@ -213,7 +213,7 @@ Section Sem.
     time_evolve psi H t f m =
     match time_evolve_kernel m (dim (tscale (gscale (rhs_coeff f) H) t)) with
     | Some (SolveIvp me) =>
-        match k_solve_ivp me (gscale (rhs_coeff f) H) (0%Q, t) [t] (flatten psi) with
+        match rev (k_solve_ivp me (gscale (rhs_coeff f) H) (0%Q, t) [] (flatten psi)) with
         | c0 :: _ => reshape c0 (shape psi)
         | [] => None
         end
@@ -250,7 +250,7 @@ Section Sem.
   Hypothesis c_eigsh : forall k A v, k_eigsh k A v = matvec (E A) v.
   Hypothesis c_expm_multiply : forall A v, k_expm_multiply A v = matvec (E A) v.
   Hypothesis c_expm_sparse : forall A v, k_expm_sparse A v = matvec (E A) v.
-  Hypothesis c_solve_ivp : forall me A t v, k_solve_ivp me A (0%Q, t) [t] v = [matvec (E (tscale A t)) v].
+  Hypothesis c_solve_ivp : forall me A t v, exists pre, k_solve_ivp me A (0%Q, t) [] v = (pre ++ [matvec (E (tscale A t)) v])%list.
 
   Theorem evolve_semantics psi H t f m : wf psi ->
     time_evolve psi H t f m =
@@ -260,8 +260,13 @@ Section Sem.
     assert (R : reshape (matvec (E (tscale (gscale (rhs_coeff f) H) t)) (flatten psi)) (shape psi) =
                 Some (mkT (shape psi) (matvec (E (tscale (gscale (rhs_coeff f) H) t)) (flatten psi)))).
     { apply reshape_length. rewrite matvec_length. exact Hwf. }
+    assert (RS : forall me, match rev (k_solve_ivp me (gscale (rhs_coeff f) H) (0%Q, t) [] (flatten psi)) with
+                 | c0 :: _ => reshape c0 (shape psi) | [] => None end =
+                 Some (mkT (shape psi) (matvec (E (tscale (gscale (rhs_coeff f) H) t)) (flatten psi)))).
+    { intros me. destruct (c_solve_ivp me (gscale (rhs_coeff f) H) t (flatten psi)) as [pre ->].
+      rewrite rev_app_distr. cbn [rev app]. exact R. }
     destruct m; cbn [Dispatch.apply_exp_kernel];
-      rewrite ?c_solve_ivp, ?c_expm, ?c_expm_multiply, ?c_expm_sparse; try exact R.
+      rewrite ?RS, ?c_expm, ?c_expm_multiply, ?c_expm_sparse; try reflexivity; try exact R.
     destruct (Nat.ltb _ 4); cbn [Dispatch.apply_exp_kernel]; rewrite ?c_expm, ?c_eigsh; exact R.
   Qed.
 
@@ -412,10 +417,13 @@ Proof.
   cbn [s_dim s_tscale s_gscale fst]. rewrite dispatch_table.
   assert (R : forall c : call, reshape (repeat c n) s = Some (mkT s (repeat c n))).
   { intros c. apply reshape_length. rewrite repeat_length. symmetry. exact Hs. }
-  assert (Q1 : forall me, match s_solve_ivp ncols me (s_gscale (rhs_coeff f) (n, gq_one)) (0%Q, t) [t] (flatten (s_psi s)) with
+  assert (RR : forall (A : Type) (x : A) k, rev (repeat x k) = repeat x k).
+  { intros A x k. induction k as [|k IHk]; [reflexivity|]. cbn [repeat rev]. rewrite IHk.
+    clear. induction k as [|k IHk]; [reflexivity|]. cbn [repeat app]. f_equal. exact IHk. }
+  assert (Q1 : forall me, match rev (s_solve_ivp ncols me (s_gscale (rhs_coeff f) (n, gq_one)) (0%Q, t) [] (flatten (s_psi s))) with
                | c0 :: _ => reshape c0 (shape (s_psi s)) | [] => None end =
-               match ncols with O => None | _ => Some (mkT s (repeat (CSolveIvp me (gq_mul_gi (rhs_coeff f) gq_one) (0%Q, t) [t]) n)) end).
-  { intros me. unfold s_solve_ivp, s_psi, flatten. cbn [data shape snd s_gscale]. rewrite repeat_length, Hs.
+               match ncols with O => None | _ => Some (mkT s (repeat (CSolveIvp me (gq_mul_gi (rhs_coeff f) gq_one) (0%Q, t) []) n)) end).
+  { intros me. unfold s_solve_ivp, s_psi, flatten. cbn [data shape snd s_gscale]. rewrite repeat_length, Hs, RR.
     destruct ncols; cbn [repeat]; [reflexivity|apply R]. }
   destruct m; cbn [apply_exp_kernel]; rewrite ?Q1;
     try (destruct ncols; cbn [shape data]; rewrite ?map_repeat'; reflexivity);
@@ -452,7 +460,7 @@ Proof.
   - reflexivity.
   - reflexivity.
   - reflexivity.
-  - intros me A t v. reflexivity.
+  - intros me A t v. exists [v]. reflexivity.
   - reflexivity.
   - intros [g1 g2] [a b]. unfold toy_adj, toy_gscale, gi_mul, gi_conj. cbn [fst snd]. f_equal; ring.
   - intros [a b] t. unfold toy_adj, toy_tscale. cbn [fst snd]. f_equal; ring.
